@@ -967,3 +967,80 @@ Proof.
   - intros t _ Ht Hts. rewrite transform_none_b64. destruct (dsize t =? 0); [eauto|].
     rewrite to_base64_flat by (auto; lia). eauto.
 Qed.
+
+(* ------------------------------------------------------------------------------------------------ the object a decoder returns
+   (needed when an encoder runs on it: Base -> other Base): no empty region, not longer than the input *)
+
+Section B64out.
+Local Ltac Zify.zify_post_hook ::= Z.div_mod_to_equations.
+
+Definition nonempty_regions (d : data) : Prop := Forall (fun r => r <> []) d.
+
+Lemma nonempty_create : forall l, nonempty_regions (data_create l).
+Proof. intros [|a l]; constructor; [discriminate|constructor]. Qed.
+
+Lemma apply_regions_nonempty {S : Type} (F : S * data -> Z -> list Z -> res (S * data)) :
+  (forall s rv off r s' rv', F (s, rv) off r = Ok (s', rv') -> exists X, rv' = rv ++ data_create X) ->
+  forall d off s rv s' rv', nonempty_regions rv -> apply_regions F d off (s, rv) = Ok (s', rv') -> nonempty_regions rv'.
+Proof.
+  intros HF. induction d as [|r d IH]; intros off s rv s' rv' Hrv H; cbn [apply_regions] in H.
+  - inversion H; subst. exact Hrv.
+  - destruct (F (s, rv) off r) as [[s1 rv1]| |] eqn:E; cbn [bind] in H; try discriminate.
+    destruct (HF _ _ _ _ _ _ E) as [X ->]. eapply IH; [|exact H].
+    apply Forall_app. split; [exact Hrv|apply nonempty_create].
+Qed.
+
+Lemma b64d_region_shape : forall s rv off r s' rv',
+  b64d_region (s, rv) off r = Ok (s', rv') -> exists X, rv' = rv ++ data_create X.
+Proof.
+  intros s rv off r s' rv' H. unfold b64d_region in H.
+  destruct (iter (Z.to_nat (Zlength r)) 0 (b64d_body (howmany (Zlength r) 4 * 3) r) (s, (0, []))) as [[[[x c] p] [n out]]| |];
+    cbn [bind] in H; try discriminate.
+  cbv zeta in H. destruct (howmany (Zlength r) 4 * 3 <? u64 n); [discriminate|]. inversion H; subst. eexists. reflexivity.
+Qed.
+
+Lemma from_base64_nonempty : forall d t, from_base64 d = Ok t -> nonempty_regions t.
+Proof.
+  intros d t H. unfold from_base64 in H.
+  destruct (apply_regions b64d_region d 0 (0, 0, 0, [])) as [[s rv]| |] eqn:E; cbn [bind] in H; try discriminate.
+  inversion H; subst. eapply (apply_regions_nonempty b64d_region b64d_region_shape); [|exact E]. constructor.
+Qed.
+
+Lemma skipn_len_le : forall (k : nat) (l : list Z), Zlength (skipn k l) <= Zlength l.
+Proof. intros. rewrite !Zlength_correct, skipn_length. lia. Qed.
+
+Lemma d64_step_len : forall c x count pad acc x' count' pad' acc',
+  d64_step c ((x, count, pad), acc) = Ok ((x', count', pad'), acc') ->
+  4 * Zlength acc' + 3 * (count' mod 4) <= 4 * Zlength acc + 3 * (count mod 4) + 3.
+Proof.
+  intros c x count pad acc x' count' pad' acc' H. unfold d64_step in H.
+  destruct (is_ws c); [inversion H; subst; lia|].
+  destruct (base64_decode_table_size <=? c); [discriminate|]. destruct (rd base64_decode_table c) as [v|]; [|discriminate].
+  destruct (v =? -1); [discriminate|]. cbv zeta in H.
+  assert (Hm : u64 (count + 1) mod 4 = (count + 1) mod 4) by (unfold u64; lia).
+  destruct (v =? -2); rewrite land3, Hm in H;
+    (destruct (Z.eqb_spec ((count + 1) mod 4) 0) as [E|E];
+     [ match type of H with (if ?b then _ else _) = _ => destruct b; [discriminate|] end;
+       inversion H; subst;
+       match goal with |- context [skipn ?k ?l] => pose proof (skipn_len_le k l) as Hk end;
+       rewrite !Zlength_cons in Hk; rewrite Hm; lia
+     | inversion H; subst; rewrite Hm; lia ]).
+Qed.
+
+Lemma d64_fold_len : forall l i x count pad acc x' count' pad' acc',
+  foldi (fun _ => d64_step) i l ((x, count, pad), acc) = Ok ((x', count', pad'), acc') ->
+  4 * Zlength acc' + 3 * (count' mod 4) <= 4 * Zlength acc + 3 * (count mod 4) + 3 * Zlength l.
+Proof.
+  induction l as [|c l IH]; intros i x count pad acc x' count' pad' acc' H; cbn [foldi] in H.
+  - inversion H; subst. rewrite Zlength_nil. lia.
+  - destruct (d64_step c (x, count, pad, acc)) as [[[[x1 c1] p1] a1]| |] eqn:E; cbn [bind] in H; try discriminate.
+    apply d64_step_len in E. apply IH in H. rewrite Zlength_cons. lia.
+Qed.
+
+Lemma dec64_flat_len : forall l V, dec64_flat l = Ok V -> Zlength V <= Zlength l.
+Proof.
+  intros l V H. unfold dec64_flat in H.
+  destruct (foldi (fun _ : Z => d64_step) 0 l (0, 0, 0, [])) as [[[[x c] p] a]| |] eqn:E; try discriminate.
+  inversion H; subst. apply d64_fold_len in E. rewrite Zlength_nil in E. rewrite Zlength_rev. pose proof (Zlength_nonneg l). lia.
+Qed.
+End B64out.
